@@ -248,10 +248,15 @@ impl Module for M {
         "styled primitives: exhaustive grid of shapes (all rect/ellipse sizes 0..=N squared, circle diameters 0..=2N, rounded rectangles with equal and unequal radii, \
          all lines / selected triangles / polylines with 0..=4 vertices on a lattice crossing the axes, arcs and sectors on an angle grid) x styles \
          (4 colour options x stroke widths x 3 alignments) x (C01: 3 target boxes, Rgb565 everywhere plus every 7th (shape, style) pair with BinaryColor / Gray8 / Rgb888 in rotation and an eighth of the random ops; C07: 6 offsets), then seeded random display-scale shapes (stroke widths up to 24 / 16), then for C02 / C07 DOTTED strokes (oracle only: rectangles of all sizes of a grid incl. squares and 8 x 60 x stroke widths on both sides of the dot-size clamp and of the square / round dot switch x alignments, seeded random ones within +-900 with widths up to 128, and seeded random shapes of every other kind with a dotted style; counters dotted:*, styled.*:dotted-<kind>) and a share of wide strokes (13..=128) on shapes of every kind placed within +-900 (quick 200, thorough 2000 ops). \
+         Model side: every op of every shape kind (arcs / sectors through the trailing `hk` hook tokens the generator appends: plane sector and bevel of the real code), except the dotted ones. \
          Non-trivial: the drawable paints at least one pixel (or, for C02 transparency, the style is transparent and the shape non-empty); distinct = distinct op text."
     }
 
     fn generate(&self, pid: &str, tier: Tier, rng: &mut Rng, emit: &mut dyn FnMut(String)) {
+        // arcs / sectors: the plane sector and the bevel the real code computes from the angles are appended to the op line
+        // (trailing `hk ...` tokens, see shapes.rs) for the model side; `execute` never reads them
+        let mut hooked = |s: String| emit(with_hooks(s));
+        let emit = &mut hooked;
         let quick = tier == Tier::Quick;
         let angles: Vec<(i32, i32)> = if quick {
             vec![(0, 90_000), (30_000, 120_000), (-45_000, -200_000), (90_000, 360_000), (10_000, 400_000), (200_000, 0), (0, -360_000), (15_500, 33_300)]
@@ -392,7 +397,7 @@ impl Module for M {
                     ctx.count("paths:clipping-target");
                 }
                 // optional colour type (default Rgb565); the three paths are the same generic code
-                let ct = t.opt().unwrap_or("rgb565");
+                let ct = t.opt().filter(|s| *s != HOOK_MARK).unwrap_or("rgb565");
                 ctx.count(&format!("paths:colour:{}", ct));
                 let (m1, l1, m2, mp) = match ct {
                     "rgb565" => paths_run::<Rgb565>(op, tb),
